@@ -191,11 +191,11 @@ def _new_struct(fmt_str, dims):
                                    tuple(ordering))
 
 
-def build_input(heap, fmt_str, dims, entries, owner):
+def build_input(heap, fmt_str, dims, entries, owner, stubs=()):
     """An input tensor whose arrays live in the arena with exact lengths."""
     from tensora.compile import tensor_cdefs as ffi
 
-    levels, vals = build_structure(dims, fmt_str, entries)
+    levels, vals = build_structure(dims, fmt_str, entries, stubs)
     c = _new_struct(fmt_str, dims)
     idx = ffi.cast("int32_t***", c.indices)
     for l, lv in enumerate(levels):
@@ -239,7 +239,7 @@ class Scenario:
             if values is not None:
                 entries = [[e[0], v] for e, v in zip(entries, values[n])]
             ins[n] = build_input(self.heap, plan["problem"]["formats"][n], t["dims"], entries,
-                                 owner=("input", n))
+                                 owner=("input", n), stubs=t.get("stubs") or ())
         return ins
 
     def new_out(self):
@@ -597,6 +597,9 @@ def shrink_candidates(plan):
                         yield p
     # inputs
     for n, t in plan["inputs"].items():
+        if t.get("stubs"):
+            p = cp(); p["inputs"][n]["stubs"] = []; yield p
+    for n, t in plan["inputs"].items():
         ne = len(t["entries"])
         if ne:
             for keep in ([], t["entries"][: ne // 2], t["entries"][ne // 2:]):
@@ -636,6 +639,8 @@ def shrink_candidates(plan):
                     p["inputs"][n]["dims"] = [p["sizes"][y] for y in ix]
                 yield p
                 break
+        if size == 0:
+            continue
     # knobs toward benign
     if plan["capacity"] != 1 << 20:
         p = cp(); p["capacity"] = 1 << 20; yield p
